@@ -316,9 +316,23 @@ class Run16:
             a = self.adapter(path)
         except Exception:
             return outcome + " <unreadable>"
-        d = a.c.to_dict()
-        self.stats["max_nodes"] = max([self.stats["max_nodes"]] + [len(nd["nodes"]) for nd in d.values()])
-        return a.observe(outcome)
+        try:
+            d = a.c.to_dict()
+            self.stats["max_nodes"] = max([self.stats["max_nodes"]] + [len(nd["nodes"]) for nd in d.values()])
+            return a.observe(outcome)
+        except Exception as x:
+            self.impl_raised(x)
+            return outcome + " <raises:%s>" % type(x).__name__
+
+    def impl_raised(self, x, idx=None):
+        """an exception escaped from the implementation inside an oracle/observation call that must succeed: a
+        violation `<function>:raises:<Class>` (c16.raises_key), never a crash of the harness; anything else is
+        re-raised (harness bug)"""
+        key = self.c16.raises_key(x)
+        if key is None:
+            raise x
+        self.bad(key, "%r escaped from the implementation while the file the command left behind was examined" % (x,),
+                 self.idx if idx is None else idx)
 
     def bad(self, key, what, idx):
         self.viol.append((key, "command %d `simulaqron %s`: %s" % (idx, " ".join(argv16(self.script[idx])[0]), what), idx))
@@ -328,6 +342,7 @@ class Run16:
     def go(self):
         try:
             for idx, step in enumerate(self.script):
+                self.idx = idx
                 self.stats["cmds"].append(step["cmd"])
                 if step["cmd"] == "env":
                     self.probe = (step["kind"], list(step["ports"]))
@@ -361,7 +376,13 @@ class Run16:
                 after = self.sb.snapshot()
                 self.stats["processes"] += 1
                 with LOCK:
-                    stop = self.judge(idx, step, r, before, after)
+                    try:
+                        stop = self.judge(idx, step, r, before, after)
+                    except Exception as x:          # an in-process oracle call into the implementation raised
+                        if len(self.stats["outcomes"]) < len(self.stats["cmds"]):
+                            self.stats["outcomes"].append("?")
+                        self.impl_raised(x, idx)
+                        stop = True
                 if stop:
                     break
         finally:
